@@ -15,7 +15,7 @@ fn exclude(p: &Node) -> Option<&'static str> {
 pub fn run(ctx: &Ctx) -> Outcome {
     let sp = spaces::c01_space(ctx.tier, ctx.seed, true, 4, 4, 2, 3, 3_000, 40_000);
     let texts = spaces::texts_c01(ctx.tier.pick(3, 4));
-    let cfg = DiffCfg { prop: "C15", compare: Compare::All, entry_points: false, ref_budget: crate::refm::BUDGET, step_cap: Some(2_000_000), exclude: &exclude, static_known: &diff::no_static_known, style: None };
+    let cfg = DiffCfg { prop: "C15", compare: Compare::All, entry_points: false, ref_budget: crate::refm::BUDGET, step_cap: Some(2_000_000), exclude: &exclude, static_known: &diff::no_static_known, style: None, f1_compat: false };
     let mut acc = diff::run(ctx, &cfg, &sp.patterns, &texts);
     // the named spellings `(?(<name>)yes|no)` / `(?('name')..)` with `\k<name>` references: the
     // same trees printed with every group named, smaller trees only
@@ -23,7 +23,7 @@ pub fn run(ctx: &Ctx) -> Outcome {
     let named_q = crate::ast::Style { group: crate::ast::GroupStyle::PName, backref: crate::ast::RefStyle::KQuote, ..Default::default() };
     let small: Vec<Node> = sp.patterns.iter().filter(|p| p.size() <= ctx.tier.pick(4, 5) && p.n_groups() > 0).cloned().collect();
     for st in [&named_a, &named_q] {
-        let cfg_n = DiffCfg { style: Some(st), ..DiffCfg { prop: "C15", compare: Compare::All, entry_points: false, ref_budget: crate::refm::BUDGET, step_cap: Some(2_000_000), exclude: &exclude, static_known: &diff::no_static_known, style: None } };
+        let cfg_n = DiffCfg { style: Some(st), ..DiffCfg { prop: "C15", compare: Compare::All, entry_points: false, ref_budget: crate::refm::BUDGET, step_cap: Some(2_000_000), exclude: &exclude, static_known: &diff::no_static_known, style: None, f1_compat: false } };
         let a2 = diff::run(ctx, &cfg_n, &small, &texts);
         acc.add("named-spelling-evaluations", a2.evals);
         acc.merge(a2);
